@@ -7,7 +7,7 @@ with M swept over a grid refined around the kill threshold: killed is monotone i
 results when not killed, host trace of a killed run is a prefix of the unlimited one, the process survives;
 amplification templates (one library call with size parameter N up to 2^40 under a small M) must be killed
 without the Go heap growing by more than a constant plus a constant times M."""
-from . import common, ctxlib, luaquota
+from . import common, ctxlib, luaquota, quotaprobes
 from .luaquota import HUGE
 
 
@@ -41,6 +41,9 @@ PROBES = [
 AMPLIFY = [
     ("rep", "string.rep('x', N)"),
     ("rep-sep", "string.rep('x', N // 2, 'y')"),
+    ("rep-sep-long-empty-s", "string.rep('', math.min(N, 1 << 24) // 1000 + 2, ('s'):rep(1000))"),
+    ("rep-sep-long-short-s", "string.rep('x', math.min(N, 1 << 24) // 2000 + 2, ('s'):rep(2000))"),
+    ("concat-sep-long", "table.concat({'a', 'b', 'c', 'd', 'e'}, ('-'):rep(math.min(N, 1 << 24) // 4))"),
     ("rep-method", "('ab'):rep(N)"),
     ("format-width", "string.format('%' .. math.min(N, 99) .. 's', 'x'):rep(N // 99 + 1)"),
     ("unpack", "select('#', table.unpack({}, 1, N))"),
@@ -146,6 +149,11 @@ def lua_leg(ctx, binpath, nprog):
                   "local function body()\n  local co = coroutine.wrap(function() return 1 end)\n"
                   "  local ok, n = P(function() co() local s = string.rep('x', 1500) return #s end) emit('after', ok, n)\n"
                   "  local t = string.rep('y', 2300) emit('continued', #t)\n  return 'R'\nend\n"))
+    # loads of sources much longer than their code, interleaved with live allocations
+    progs.append(("corpus1", "corpus:load-comments",
+                  "local pad = '--' .. ('c'):rep(3000) .. '\\n'\nlocal srcs = {}\nfor i = 1, 6 do srcs[i] = pad .. 'return ' .. i end\n"
+                  "local function body()\n  local keep = {}\n  for i = 1, 6 do\n    local f = load(srcs[i])\n"
+                  "    keep[i] = string.rep('k', 2000) emit(i, f())\n  end\n  return 'R'\nend\n"))
     # probes first, each in its own process (they may kill it)
     for name, key, src, lim, want in PROBES:
         res = luaquota.run_batch(binpath, [(name, wrap(src, lim)), (name + ":after", "emit('alive')")])
@@ -304,6 +312,7 @@ def run(ctx):
     msgs = common.regen(ctx)
     for m in msgs:
         ctx.obligations.append({"name": "translate:" + m.split(":")[0].split(" ")[-1], "ok": False, "axioms": [], "note": m})
+    quotaprobes.regen_recover_sites(ctx)
     common.prove(ctx)
     common.build_oracle()
     h = common.build_go("c07", "cmd/c07")
@@ -322,6 +331,10 @@ def run(ctx):
     runner = common.build_go("c05", "cmd/c05")
     lua_leg(ctx, runner, 300 if ctx.tier == "thorough" else 40)
     amplify_leg(ctx, runner, ctx.tier == "thorough")
+    ctx.log("callback sites, result sizes, load")
+    quotaprobes.callback_leg(ctx, runner, "memory")
+    quotaprobes.result_size_leg(ctx, runner)
+    quotaprobes.load_leg(ctx, runner)
 
 
 def replay(ctx, path):
